@@ -308,6 +308,25 @@ func execCover(args []string) string {
 	return "uncovered=" + strings.Join(missing, ",")
 }
 
+// longIDNNames: names built from long non-ASCII labels in front of ARPA and host suffixes in
+// mixed case.  55 x U+00E9 is 110 bytes of UTF-8 but a 59-byte xn-- label.
+func longIDNNames() (names []string) {
+	labs := []string{strings.Repeat("é", 55), strings.Repeat("я", 50), strings.Repeat("é", 31), strings.Repeat("é", 57), "я"}
+	sufs := []string{"1.0.0.127.IN-ADDR.ARPA", "1.0.0.127.in-addr.arpa", "ip6.arpa", "IP6.ARPA.", "a.B.ip6.ARPA", "example.COM", "Example.org.", "_srv.Example"}
+	for _, lab := range labs {
+		for n := 1; n <= 4; n++ {
+			for _, suf := range sufs {
+				names = append(names, strings.Repeat(lab+".", n)+suf)
+			}
+		}
+	}
+	// many one-letter non-ASCII labels: short in UTF-8, long in Punycode
+	for _, n := range []int{30, 31, 32, 60, 126} {
+		names = append(names, strings.Repeat("я.", n)+"IP6.arpa", strings.Repeat("я.", n)+"Example.COM")
+	}
+	return names
+}
+
 func genC01(g *G) {
 	g.Emit("cover", "exported")
 	names := make([]string, 0, len(c01Funcs))
@@ -345,6 +364,11 @@ func genC01(g *G) {
 	for n := 0; n <= 6; n++ {
 		add(strings.Repeat("1.", n)+"in-addr.arpa", "")
 		add(strings.Repeat("001.", n)+"in-addr.arpa", "")
+	}
+	// long internationalised names: the UTF-8 text is longer than the DNS limits (63 / 253 bytes)
+	// while the Punycode form that the validators measure still fits, and the other way round
+	for _, in := range longIDNNames() {
+		add(in, "")
 	}
 	// token soup from the grammars of the other properties
 	toks := []string{"", "a", "1", "255", "256", "00", "-", "_", ".", "..", ":", "::", "%", "[", "]", "/", "#", " ", "\t", "\n", "\r\n", "é", "\xff", "\x00", "xn--", "1.2.3.4", "::1", "fe80::1%e",
